@@ -388,3 +388,134 @@ fn sizes(rig: &Rig, tracer: &Tracer) {
 		None => tracer.ev(json!({"ev": "Sizes", "r": -1, "s": -1, "b": -1, "n": -1})),
 	}
 }
+
+// ------------------------------------------------------------------------------------------------------------------
+/// C09 robustness (supplementary, outside the specification's alphabet): arbitrary / mutated / extreme server bytes are fed
+/// to a client with pending work.  Afterwards the client must be healthy (a barrier call is answered) or cleanly
+/// disconnected with a recorded cause; nothing may panic, stall past its timeout or report the placeholder.
+pub fn fuzz(n: usize, out_path: &str) {
+	let rt = tokio::runtime::Builder::new_current_thread().enable_all().build().unwrap();
+	let mut outf = crate::common::Out::create(out_path);
+	let panics: Arc<parking_lot::Mutex<Vec<String>>> = Default::default();
+	let prev = std::panic::take_hook();
+	{
+		let p = panics.clone();
+		std::panic::set_hook(Box::new(move |info| p.lock().push(info.to_string())));
+	}
+	for i in 0..n {
+		let mut rng = rng_for(i, 99);
+		let (key, detail) = rt.block_on(fuzz_one(&mut rng, i));
+		let ps: Vec<String> = panics.lock().drain(..).collect();
+		let key = if !ps.is_empty() { Some("fuzz:panic".to_string()) } else { key };
+		outf.verdict(i, 0, key, json!({"detail": detail, "panics": ps}));
+	}
+	std::panic::set_hook(prev);
+	outf.finish();
+}
+
+fn fuzz_text(rng: &mut StdRng, seen_ids: &[Value]) -> Vec<u8> {
+	let id = if seen_ids.is_empty() { json!(0) } else { seen_ids[rng.random_range(0..seen_ids.len())].clone() };
+	let base: Vec<String> = vec![
+		format!(r#"{{"jsonrpc":"2.0","id":{id},"result":{{"tok":1}}}}"#),
+		format!(r#"{{"jsonrpc":"2.0","id":{id},"error":{{"code":-32000,"message":"e"}}}}"#),
+		format!(r#"[{{"jsonrpc":"2.0","id":{id},"result":1}},{{"jsonrpc":"2.0","id":18446744073709551615,"result":2}}]"#),
+		format!(r#"[{{"jsonrpc":"2.0","id":0,"result":1}},{{"jsonrpc":"2.0","id":18446744073709551614,"result":2}}]"#),
+		r#"{"jsonrpc":"2.0","method":"sub","params":{"subscription":1,"result":5}}"#.to_string(),
+		r#"{"jsonrpc":"2.0","method":"sub","params":{"subscription":"1","error":"x"}}"#.to_string(),
+		r#"{"jsonrpc":"2.0","method":"m","params":[1]}"#.to_string(),
+		format!(r#"{{"jsonrpc":"2.0","id":"{}","result":1}}"#, "9".repeat(30)),
+		format!(r#"{{"jsonrpc":"2.0","id":-1,"result":1}}"#),
+		format!(r#"{{"jsonrpc":"2.0","id":1.5e300,"result":1}}"#),
+		format!("[{}]", vec![r#"{"jsonrpc":"2.0","method":"m"}"#; 5000].join(",")),
+		format!("[{}]", (0..3000).map(|k| format!(r#"{{"jsonrpc":"2.0","id":{k},"result":{k}}}"#)).collect::<Vec<_>>().join(",")),
+		format!("{}1{}", "[".repeat(200), "]".repeat(200)),
+		"[]".to_string(),
+		"[[]]".to_string(),
+		"null".to_string(),
+		"".to_string(),
+		"   ".to_string(),
+		r#"{"jsonrpc":"2.0","id":null,"result":null}"#.to_string(),
+		r#"{"jsonrpc":"2.0","id":{},"result":null}"#.to_string(),
+	];
+	let mut t = base[rng.random_range(0..base.len())].clone().into_bytes();
+	match rng.random_range(0..6) {
+		0 if !t.is_empty() => {
+			let cut = rng.random_range(0..t.len());
+			t.truncate(cut);
+		}
+		1 if !t.is_empty() => {
+			for _ in 0..rng.random_range(1..4) {
+				let p = rng.random_range(0..t.len());
+				t[p] = rng.random::<u8>();
+			}
+		}
+		2 if !t.is_empty() => {
+			let p = rng.random_range(0..t.len());
+			let extra: Vec<u8> = t[p..].to_vec();
+			t.extend(extra);
+		}
+		_ => {}
+	}
+	t
+}
+
+async fn fuzz_one(rng: &mut StdRng, i: usize) -> (Option<String>, Value) {
+	let string_ids = i % 2 == 1;
+	let rig = build(8, 2, string_ids, Duration::from_secs(3), i as u64);
+	let slots: BTreeMap<String, SubSlot> = [("s".to_string(), SubSlot::default())].into_iter().collect();
+	let mut tasks = vec![start_op(&rig, "a", "call", 1, &slots), start_op(&rig, "b", "batch", 2, &slots), start_op(&rig, "s", "sub", 1, &slots)];
+	settle(20).await;
+	let seen: Vec<Value> = rig.wire.lock().iter().flat_map(|o| o.ids.clone()).collect();
+	let mut texts = vec![];
+	for _ in 0..rng.random_range(1..4) {
+		let t = fuzz_text(rng, &seen);
+		texts.push(String::from_utf8_lossy(&t).chars().take(160).collect::<String>());
+		let item = match String::from_utf8(t.clone()) {
+			Ok(s) => PeerItem::Text(s, json!({"t": "fuzz"})),
+			Err(_) => PeerItem::Text(String::from_utf8_lossy(&t).into_owned(), json!({"t": "fuzz"})),
+		};
+		let _ = rig.peer_tx.send(item);
+		settle(10).await;
+	}
+	// barrier: a fresh call; if the client is still connected the peer answers it
+	let barrier = start_op(&rig, "z", "call", 1, &slots);
+	settle(20).await;
+	if rig.client.is_connected() {
+		let zid = rig.wire.lock().iter().rev().find(|o| o.kind == "call").map(|o| o.ids[0].clone());
+		if let Some(zid) = zid {
+			let _ = rig.peer_tx.send(PeerItem::Text(format!(r#"{{"jsonrpc":"2.0","id":{zid},"result":{{"tok":77}}}}"#), json!({"t": "barrier"})));
+		}
+		settle(20).await;
+		// then the peer goes away: everything still pending must fail with that cause
+		let _ = rig.peer_tx.send(PeerItem::Fail("peerClose".into()));
+	}
+	settle(40).await;
+	tasks.push(barrier);
+	let mut stalled = 0;
+	for t in tasks {
+		if tokio::time::timeout(Duration::from_secs(5), t).await.is_err() {
+			stalled += 1;
+		}
+	}
+	let evs = rig.tracer.take();
+	let dones: Vec<&Value> = evs.iter().filter(|e| e["ev"] == "FeDone").collect();
+	let placeholder = dones.iter().any(|e| e["res"]["k"] == "placeholder");
+	let timeouts = dones.iter().filter(|e| e["res"]["k"] == "timeout").count();
+	let od = tokio::time::timeout(Duration::from_secs(3), rig.client.on_disconnect()).await;
+	let od_class = match &od {
+		Ok(e) => err_class(e),
+		Err(_) => json!({"k": "pending"}),
+	};
+	let key = if stalled > 0 {
+		Some("fuzz:future-stalled".to_string())
+	} else if placeholder || od_class["k"] == "placeholder" {
+		Some("fuzz:placeholder-cause".to_string())
+	} else if timeouts > 0 {
+		Some("fuzz:call-timed-out-instead-of-failing-with-the-cause".to_string())
+	} else if od_class["k"] == "pending" {
+		Some("fuzz:on_disconnect-pending-after-the-peer-left".to_string())
+	} else {
+		None
+	};
+	(key, json!({"texts": texts, "on_disconnect": od_class, "done": dones.iter().map(|e| e["res"].clone()).collect::<Vec<_>>()}))
+}
